@@ -467,7 +467,7 @@ pub fn main(args: &[String]) {
         cases.extend(exhaustive_cases(1));
         cases.extend(exhaustive_cases(2));
         let (n3, nr) = if tier == "feat" { (120, 120) } else { match (thorough, heavy) {
-            (false, false) => (1500, 1500),
+            (false, false) => if props.iter().any(|p| p == "C04") { (5000, 5000) } else { (1500, 1500) },
             (false, true) => (500, 500),
             (true, false) => (30000, 12000),
             (true, true) => (6000, 4000),
